@@ -290,19 +290,103 @@ func c04OneListener(c *Check) {
 		if lst == nil {
 			continue
 		}
-		// every Walk in f or its closures gets the parameter itself
-		for _, g := range withClosures(f) {
-			eachCall(g, func(cl ssa.CallInstruction) {
-				o := calleeObj(cl)
-				if o == nil || o.Name() != "Walk" || !strings.HasSuffix(o.Pkg().Path(), "/antlr") {
-					return
+		// a field of a struct of this package that only ever receives the
+		// parameter (a context object handed to the steps f is split into): a
+		// load of that field is the shared listener
+		type fieldID struct {
+			st  *types.Struct
+			idx int
+		}
+		carrier := map[fieldID]bool{}
+		fieldOf := func(fa *ssa.FieldAddr) (fieldID, bool) {
+			pt, ok := fa.X.Type().Underlying().(*types.Pointer)
+			if !ok {
+				return fieldID{}, false
+			}
+			st, ok := pt.Elem().Underlying().(*types.Struct)
+			return fieldID{st, fa.Field}, ok
+		}
+		eachInstr(f, func(_ *ssa.BasicBlock, i ssa.Instruction) {
+			if st, ok := i.(*ssa.Store); ok && stripValue(st.Val) == ssa.Value(lst) {
+				if fa, ok := st.Addr.(*ssa.FieldAddr); ok {
+					if id, ok := fieldOf(fa); ok {
+						carrier[id] = true
+					}
 				}
-				n++
-				arg := cl.Common().Args[len(cl.Common().Args)-2]
-				same := stripValue(arg) == ssa.Value(lst) || paramOrFree(stripValue(arg), f, paramIndex(f, lst))
-				c.Cond(same, "ONE-LISTENER", fnName(f)+"|every file walked with the shared listener", p.pos(cl.Pos()),
-					"the tree walk uses the listener passed in for the whole closure", "a file is walked with a different listener: its declarations go to another module")
-			})
+			}
+		})
+		if len(carrier) > 0 {
+			for _, g := range p.RepoFuncs() {
+				if fnPkgPath(g) != fnPkgPath(f) {
+					continue
+				}
+				eachInstr(g, func(_ *ssa.BasicBlock, i ssa.Instruction) {
+					st, ok := i.(*ssa.Store)
+					if !ok {
+						return
+					}
+					fa, ok := st.Addr.(*ssa.FieldAddr)
+					if !ok {
+						return
+					}
+					if id, ok := fieldOf(fa); ok && carrier[id] && !(g == f && stripValue(st.Val) == ssa.Value(lst)) {
+						delete(carrier, id) // written elsewhere too: not a carrier
+					}
+				})
+			}
+		}
+		isShared := func(v ssa.Value, g *ssa.Function) bool {
+			v = stripValue(v)
+			if v == ssa.Value(lst) || (withinFn(g, f) && paramOrFree(v, f, paramIndex(f, lst))) {
+				return true
+			}
+			if ld, ok := v.(*ssa.UnOp); ok && ld.Op == token.MUL {
+				if fa, ok := ld.X.(*ssa.FieldAddr); ok {
+					if id, ok := fieldOf(fa); ok && carrier[id] {
+						return true
+					}
+				}
+			}
+			return false
+		}
+		// every Walk in f, its closures and the steps of this package it is split
+		// into gets the shared listener
+		steps := []*ssa.Function{f}
+		seenStep := map[*ssa.Function]int{f: 0}
+		for k := 0; k < len(steps); k++ {
+			for _, g := range withClosures(steps[k]) {
+				eachCall(g, func(cl ssa.CallInstruction) {
+					sc := staticCallee(cl)
+					if sc == nil || fnPkgPath(sc) != fnPkgPath(f) || len(sc.Blocks) == 0 || seenStep[steps[k]] >= 3 {
+						return
+					}
+					if _, seen := seenStep[sc]; !seen && len(carrier) > 0 {
+						seenStep[sc] = seenStep[steps[k]] + 1
+						steps = append(steps, sc)
+					}
+				})
+			}
+		}
+		for _, st := range steps {
+			for _, g := range withClosures(st) {
+				eachCall(g, func(cl ssa.CallInstruction) {
+					o := calleeObj(cl)
+					if o == nil || o.Name() != "Walk" || o.Pkg() == nil || !strings.HasSuffix(o.Pkg().Path(), "/antlr") {
+						return
+					}
+					n++
+					arg := cl.Common().Args[len(cl.Common().Args)-2]
+					same := isShared(arg, g)
+					if !same && st != f {
+						// a closure of a step: the captured variable holds the carrier's load
+						if fv, ok := unspillFree(arg); ok {
+							same = freeVarBoundTo(fv, func(v ssa.Value) bool { return isShared(v, st) })
+						}
+					}
+					c.Cond(same, "ONE-LISTENER", fnName(f)+"|every file walked with the shared listener", p.pos(cl.Pos()),
+						"the tree walk uses the listener passed in for the whole closure", "a file is walked with a different listener: its declarations go to another module")
+				})
+			}
 		}
 		// success returns yield listener.module
 		mi, ei := moduleResultIndex(f.Signature), errorResultIndex(f.Signature)
@@ -316,7 +400,7 @@ func c04OneListener(c *Check) {
 				continue
 			}
 			_, fld, base, isF := loadedField(vals[mi])
-			good := isF && fld == "module" && unspill(base) == ssa.Value(lst)
+			good := isF && fld == "module" && (unspill(base) == ssa.Value(lst) || isShared(base, f))
 			c.Cond(good, "ONE-LISTENER", fnName(f)+"|returns the shared listener's module", p.pos(ret.Pos()),
 				"the module returned is the one every file was merged into", "the module returned on success is not the shared listener's module")
 		}
@@ -777,4 +861,71 @@ func keepsExistingD(h *ssa.Function, prm *ssa.Parameter, depth int) bool {
 		}
 	}
 	return n > 0
+}
+
+// withinFn: g is f or a closure nested in f.
+func withinFn(g, f *ssa.Function) bool {
+	for ; g != nil; g = g.Parent() {
+		if g == f {
+			return true
+		}
+	}
+	return false
+}
+
+// unspillFree: v is a captured variable, or a load of a captured cell.
+func unspillFree(v ssa.Value) (*ssa.FreeVar, bool) {
+	v = stripValue(v)
+	if ld, ok := v.(*ssa.UnOp); ok && ld.Op == token.MUL {
+		v = ld.X
+	}
+	fv, ok := v.(*ssa.FreeVar)
+	return fv, ok
+}
+
+// freeVarBoundTo: every closure creation binds the captured variable to a
+// value pred accepts (or to a cell whose only stored values pred accepts).
+func freeVarBoundTo(fv *ssa.FreeVar, pred func(ssa.Value) bool) bool {
+	fn := fv.Parent()
+	par := fn.Parent()
+	if par == nil {
+		return false
+	}
+	k := -1
+	for i, x := range fn.FreeVars {
+		if x == fv {
+			k = i
+		}
+	}
+	if k < 0 {
+		return false
+	}
+	n, good := 0, true
+	eachInstr(par, func(_ *ssa.BasicBlock, i ssa.Instruction) {
+		mc, ok := i.(*ssa.MakeClosure)
+		if !ok || mc.Fn != ssa.Value(fn) {
+			return
+		}
+		n++
+		b := mc.Bindings[k]
+		if pred(b) {
+			return
+		}
+		if al, ok := b.(*ssa.Alloc); ok && al.Referrers() != nil {
+			stores := 0
+			for _, r := range *al.Referrers() {
+				if st, ok := r.(*ssa.Store); ok && st.Addr == ssa.Value(al) {
+					stores++
+					if !pred(st.Val) {
+						good = false
+					}
+				}
+			}
+			if stores > 0 {
+				return
+			}
+		}
+		good = false
+	})
+	return n > 0 && good
 }
